@@ -223,6 +223,11 @@ func runC19(c *ctx) {
 			}
 			mark := sc.h.w.mark() // requests of the sweep are already on the wire: observe since the previous step
 			_ = mark
+			// the sweep holds the manager lock from its first to its last eviction: taking that lock once (the snapshot
+			// does) is the barrier behind which every request of the sweep has been produced; only then is "the sender is
+			// idle" the end of the step (between two evictions of a long sweep the sender is idle, too)
+			sc.h.w.settle()
+			_, _ = sc.h.w.m.VerifSnapshot()
 			sc.h.w.settle()
 			o := sc.h.observe(sc.lastMark())
 			sc.h.steps = append(sc.h.steps, obj{"o": "tick", "now": 100 + 30*tick, "obs": o})
